@@ -144,3 +144,27 @@ fn full_bunch_counters_empty_nopanic() {
     let r = a.check_bunch_counters();
     assert!(r.is_ok() && a.validated_bc().is_none(), "[C13][C01][C02] a lane without any chip has no bunch counter mismatch and no validated bunch counter");
 }
+
+// ---- contract-shaped stand-in for analyze_alpide_frame (used by the frame-level harness in alpide.rs):
+// the k-th analysed lane gets outcome LANE_OUTCOME[k]: 0 = no errors (bunch counter LANE_BC[k]), 1 = lane
+// errors, 2 = lane announced a fatal state
+pub(crate) static mut LANE_OUTCOME: [u8; 3] = [0; 3];
+pub(crate) static mut LANE_BC: [u8; 3] = [0; 3];
+pub(crate) static mut LANE_CALLS: usize = 0;
+pub(crate) fn stub_analyze_alpide_frame<'a>(a: &mut LaneAlpideFrameAnalyzer<'a>, _f: &LaneDataFrame) -> Result<(), String>
+where
+    'a: 'a,
+{
+    let k = unsafe { LANE_CALLS };
+    unsafe { LANE_CALLS += 1 };
+    let o = if k < 3 { unsafe { LANE_OUTCOME[k] } } else { 0 };
+    if o == 1 {
+        Err(String::new())
+    } else if o == 2 {
+        a.lane_status_fatal = true;
+        Ok(())
+    } else {
+        a.validated_bc = Some(if k < 3 { unsafe { LANE_BC[k] } } else { 0 });
+        Ok(())
+    }
+}
